@@ -12,6 +12,7 @@ import (
 	"github.com/deepteams/webp/animation"
 	"github.com/deepteams/webp/internal/zzverif/imgs"
 	"github.com/deepteams/webp/internal/zzverif/riffwalk"
+	"github.com/deepteams/webp/internal/zzverif/vp8gen"
 	"github.com/deepteams/webp/internal/zzverif/vp8lgen"
 )
 
@@ -210,6 +211,53 @@ func genCorpus(seed int64) []namedFile {
 	for i, o := range vp8lgen.TransformOrders {
 		if len(o) == 1 || len(o) == 4 && i%7 == 0 || len(o) == 2 && o[0] == 3 {
 			add(fmt.Sprintf("16x3-order%d", i), presetPicker{"dims": 10, "transforms": i, "sub-copies": 6, "pred-mode": 0})
+		}
+	}
+	return out
+}
+
+type vp8Preset map[string]int
+
+func (p vp8Preset) Pick(n int, label string) int {
+	if v, ok := p[label]; ok && v < n {
+		return v
+	}
+	return 0
+}
+func (p vp8Preset) Free(n int, label string) int { return p.Pick(n, label) }
+
+// vp8Corpus returns RIFF-wrapped key frames from the VP8 generator: every
+// single deviation of every menu on a 3x2-macroblock picture, and the
+// coefficient-program x magnitude product (extreme coefficient values).
+func vp8Corpus(seed int64) []namedFile {
+	var out []namedFile
+	add := func(name string, p vp8Preset) {
+		f, _ := vp8gen.Generate(p, seed)
+		out = append(out, namedFile{"vp8gen-" + name, riffwalk.RIFF(riffwalk.ChunkBytes("VP8 ", f.Encode())), true})
+	}
+	menus := map[string]int{"qbase": 6, "qdelta-y1dc": 4, "qdelta-y2dc": 4, "qdelta-y2ac": 4, "qdelta-uvdc": 4, "qdelta-uvac": 4, "segments": 5,
+		"filter-level": 5, "filter-simple": 2, "sharpness": 3, "lf-delta": 3, "partitions": 4, "ymode": 8, "submode": 11, "uvmode": 5, "skip": 4, "prob-updates": 4}
+	add("base", vp8Preset{"dims": 4, "coeffs": 7})
+	for label, n := range menus {
+		for v := 1; v < n; v++ {
+			p := vp8Preset{"dims": 4, "coeffs": 7, "filter-level": 3, label: v}
+			if label == "submode" {
+				p["ymode"] = 5
+			}
+			add(fmt.Sprintf("%s%d", label, v), p)
+		}
+	}
+	for c := 1; c <= 10; c++ {
+		for m := 0; m < 11; m += 2 {
+			for _, q := range []int{0, 1, 5} {
+				name := fmt.Sprintf("coeffs%d-mag%d-q%d", c, m, q)
+				if q == 5 && m >= 6 {
+					// quantiser index 127 with levels >= 11: dequantised coefficients of several
+					// thousand, beyond what 16-bit inverse-DCT lanes hold without wrapping
+					name = "extreme-" + name
+				}
+				add(name, vp8Preset{"dims": 4, "coeffs": c, "magnitude": m, "qbase": q})
+			}
 		}
 	}
 	return out
